@@ -25,7 +25,8 @@ from harness.gen import a11_c18 as G
 
 DRIVERS = ["drv_c18"]
 RULE = ("generated Modelica programs (1-D/2-D/3-D arrays, arrays of components holding arrays, two levels of "
-        "component nesting, derivatives of arrays, array-valued/each/parameter-dependent attributes, Integer and "
+        "component nesting, derivatives of arrays, array-valued/each/parameter-dependent attributes (incl. non-scalar "
+        "expressions of 1-D/2-D array parameters), Integer and "
         "Boolean arrays, outputs, delays, for-loops, slices); a case is one program compiled with and without "
         "expand_vectors (20% also with expand_mx) and evaluated at two exact integer points; non-trivial = at least "
         "one array variable with two or more elements was expanded and at least one equation refers to it; "
@@ -76,7 +77,18 @@ def expected_attr(spec, idx, point):
     if f == "pvec":
         return spec["k"][idx[-1]] * point[spec["p"]][0]
     if f == "pref":
-        return point[spec["p"]][idx[-1] if spec["el"] is None else spec["el"]]
+        if spec["el"] is not None:
+            return point[spec["p"]][spec["el"]]
+        pos = colmajor_pos(spec["dims"], list(idx)[-len(spec["dims"]):])
+        a = point[spec["p"]][pos]
+        op = spec.get("op", "ref")
+        if op == "smul":
+            return spec["k"] * a
+        if op == "add":
+            return a + point[spec["p2"]][pos]
+        if op == "emul":
+            return a * point[spec["p2"]][pos]
+        return a
     raise HarnessError("attribute spec " + repr(spec))
 
 
@@ -380,7 +392,7 @@ def check_case(ctx, case, drv):
     # ---- the Lean model ------------------------------------------------------------------------------------------
     if drv is not None:
         model_names_check(ctx, case, drv, m0, impl_names)
-        model_attr_check(ctx, case, drv, impl_attr)
+        model_attr_check(ctx, case, drv, impl_attr, point=points[0][0])
         model_outputs_check(ctx, case, drv, m0, m1, block)
         if res:
             model_residual_check(ctx, case, drv, m0, res, block)
@@ -420,8 +432,10 @@ def attr_json(spec):
         return {"kind": "list", "v": _ints(spec["v"])}
     if f == "innerfill":
         return {"kind": "dm", "shape": spec["dims"] + [1] * (2 - len(spec["dims"]))}
+    if f == "pref" and spec["el"] is None:
+        return {"kind": "mx", "shape": list(mx_shape(spec["dims"]))}
     if f in ("pvec", "pref"):
-        return {"kind": "mx"}
+        return {"kind": "mxother"}
     raise HarnessError(repr(spec))
 
 
@@ -431,7 +445,7 @@ def _ints(v):
     return int(v)
 
 
-def model_attr_check(ctx, case, drv, impl_attr, raised=None):
+def model_attr_check(ctx, case, drv, impl_attr, raised=None, point=None):
     """Element selection: the model's selected elements (or its error) against what the scalars of the real
     expanded model carry (`impl_attr[(variable, attribute)]`, in creation order) or the exception it raised."""
     if drv is None:
@@ -442,7 +456,7 @@ def model_attr_check(ctx, case, drv, impl_attr, raised=None):
             continue
         for a, spec in d["attrs"].items():
             aj = attr_json(spec)
-            if aj["kind"] in ("scalar", "mx"):
+            if aj["kind"] in ("scalar", "mxother"):
                 continue
             ans = drv.ask({"op": "expand.attr", "dims": dims, "attr": aj, "mode": "current"})
             if not ans.get("ok"):
@@ -461,6 +475,14 @@ def model_attr_check(ctx, case, drv, impl_attr, raised=None):
                 continue
             if aj["kind"] == "list":
                 want = ans["values"]
+            elif aj["kind"] == "mx":
+                # the model says which storage position of the attribute matrix each scalar reads
+                want = []
+                for pos in ans["positions"]:
+                    a0 = point[spec["p"]][pos]
+                    op = spec.get("op", "ref")
+                    want.append(spec["k"] * a0 if op == "smul" else a0 + point[spec["p2"]][pos] if op == "add"
+                                else a0 * point[spec["p2"]][pos] if op == "emul" else a0)
             else:
                 want = [spec["v"] for _ in ans["positions"]]
             if len(want) != len(got) or any(not same_number(x, y) for x, y in zip(want, got)):
